@@ -379,7 +379,8 @@ def check_one(ctx, res, spec, reqs, pend):
     buf = io.StringIO()
     try:
         with contextlib.redirect_stdout(buf):
-            text = cc.generate_stub(target, *args)
+            first = cc.generate_stub(target, *args)
+            text = cc.generate_stub(target, *args)           # the rendering that is examined is the second one of the same objects
     except Exception as e:  # noqa
         res.violate("C20:raised:%s:%s" % (type(e).__name__, classify_raise(spec, e)), "generate_stub raised %s: %s" % (type(e).__name__, e), case)
         return
@@ -387,6 +388,9 @@ def check_one(ctx, res, spec, reqs, pend):
         res.violate("C20:stdout", "generate_stub wrote to standard output: %r" % buf.getvalue()[:80], case)
     if [snap(schema), snap(target)] != before:
         res.violate("C20:mutated", "generate_stub changed the schema or the configuration", case)
+    if first != text:
+        res.violate("C20:not-repeatable", "generating the stub of the same object twice gives two different texts: the first generation left something behind",
+                    dict(case, first=first, second=text))
     fields = effective(spec["fields"])
     try:
         tree = ast.parse(text)
